@@ -49,4 +49,27 @@ theorem pieces_eq_of_interval (K1 K2 : Nat → Rat) (s1 s2 p : Nat) (l1 l2 : Lis
   · exact key V3.y rfl (fun _ _ => rfl) (fun _ _ => rfl)
   · exact key V3.z rfl (fun _ _ => rfl) (fun _ _ => rfl)
 
+/-- The NURBS Book (2.7) as an identity of POLYNOMIALS -/
+theorem cdbPoly_derivative (K : Nat → Rat) (base : Nat → Rat) (M : Nat)
+    (hmono : ∀ a b, a ≤ b → b ≤ M → K a ≤ K b) (p i : Nat) (hi : i + p + 2 ≤ M) :
+    derivative (cdbPoly K base (p + 1) i)
+      = C ((p : ℚ) + 1) * (C (1 / (K (i + p + 1) - K i)) * cdbPoly K base p i
+          - C (1 / (K (i + p + 2) - K (i + 1))) * cdbPoly K base p (i + 1)) := by
+  apply Polynomial.funext
+  intro u
+  rw [cdbPoly_derivative_eval, cdbFD_formula K u base M hmono p i hi]
+  simp only [eval_mul, eval_sub, eval_C, cdbPoly_eval]
+  ring
+
+/-- **derivatives of every order** (The NURBS Book (2.9)): the `(k+1)`-th derivative of a basis function of degree
+    `p + 1` is `(p+1)·(N^{(k)}_{i,p}/(K_{i+p+1} − K_i) − N^{(k)}_{i+1,p}/(K_{i+p+2} − K_{i+1}))`, as polynomials, hence
+    for every parameter -/
+theorem cdbPoly_iterate_derivative (K : Nat → Rat) (base : Nat → Rat) (M : Nat)
+    (hmono : ∀ a b, a ≤ b → b ≤ M → K a ≤ K b) (p i k : Nat) (hi : i + p + 2 ≤ M) :
+    derivative^[k + 1] (cdbPoly K base (p + 1) i)
+      = C ((p : ℚ) + 1) * (C (1 / (K (i + p + 1) - K i)) * derivative^[k] (cdbPoly K base p i)
+          - C (1 / (K (i + p + 2) - K (i + 1))) * derivative^[k] (cdbPoly K base p (i + 1))) := by
+  rw [Function.iterate_succ, Function.comp_apply, cdbPoly_derivative K base M hmono p i hi,
+    iterate_derivative_C_mul, iterate_derivative_sub, iterate_derivative_C_mul, iterate_derivative_C_mul]
+
 end EzdxfVerif.Lemmas.Curve
